@@ -68,8 +68,9 @@ type Sched struct {
 
 // New creates a scheduler.
 func New(mode Mode) *Sched {
-	return &Sched{mode: mode, roles: map[int64]string{}, parked: map[int64]*parked{}, passed: map[string]int{},
+	s := &Sched{mode: mode, roles: map[int64]string{}, parked: map[int64]*parked{}, passed: map[string]int{},
 		recording: true, selfG: map[int64]bool{}}
+	return s
 }
 
 // GoID returns the current goroutine's id.
